@@ -27,6 +27,7 @@ COMPONENTS = {
 
 def gen_case(tp, tier):
     feat = {'tempo_clocks': True, 'sends': True, 'bind': True, 'embed': True,
+            'busy': True,
             'inf_wait': True,
             'odd_deltas': tp.draw(3) == 0}
     prog = rprog.gen(tp, feat, tier)
@@ -158,6 +159,9 @@ def run_rt(case, tape, emit):
         k.freeze()
         import sc3.base.clock as sclk
         return {'outcome': outcome, 'trace': it.trace, 'recvd': recvd,
+                'recv_log': [(t, d.hex()) for t, port, d in w.net.recv_log
+                             if port == main._osc_interface.port]
+                if loop else [],
                 'errors': [r[:3] for r in w.error_logs()],
                 'init_time': main._init_time, 'epoch': k.epoch,
                 'osc_offset': sclk.SystemClock._elapsed_osc_offset,
@@ -349,6 +353,15 @@ def check_rt(case, res, viol, stats):
                      f'{len(flat)} messages sent to the library port, '
                      f'{len(rec)} responder calls')
         else:
+            # when the receive thread took each message off its socket
+            arrived = {}
+            for t, hexd in res.get('recv_log', []):
+                pkt, err = osc.try_decode(bytes.fromhex(hexd))
+                if err is None:
+                    for _, mm in osc.flatten(pkt):
+                        arrived.setdefault(repr(mm.aslist()), []).append(t)
+            kn = case['knobs']
+            steady = not kn.get('stall_pm') and not kn.get('line_mean')
             pool = list(flat)
             for r in rec:
                 hit = None
@@ -376,6 +389,23 @@ def check_rt(case, res, viol, stats):
                                  f'responder time {r["time"]} for an '
                                  f'immediate message sent at {lo}, '
                                  f'dispatched by {hi}')
+                    # it is the arrival instant: what the receive thread
+                    # read when it took the datagram, not when SystemClock
+                    # got round to dispatching it (without stalls injected
+                    # into the receive thread the two reads coincide)
+                    tas = arrived.get(repr(r['msg']))
+                    if steady and tas:
+                        stats['arrival-time-checked'] = stats.get(
+                            'arrival-time-checked', 0) + 1
+                        # (the same message may have been sent twice)
+                        if not any(ta - init_now - 1e-6 <= r['time']
+                                   <= ta - init_now + 1e-3 for ta in tas):
+                            viol.add(
+                                'C07-4', 'loopback-time-not-arrival',
+                                f'responder time {r["time"]} for an '
+                                f'immediate message that the receive thread '
+                                f'took at {[ta - init_now for ta in tas]} '
+                                f'(dispatched at {hi})')
 
 
 def check_subs_same_instant(pkt, els, base, offset, viol, stats):
